@@ -398,6 +398,8 @@ def set_method(engine, st, fr, o, name, args, kwargs, node):
     oid = Val.id(o.t)
     mem = st.get("$mem", oid)
     n = st.get("$len", oid)
+    if name in ("add", "discard"):
+        st.trace.append(Event("mutate", recv=oid, meth="set." + name, args=[engine.to_val(st, args[0])], site=engine.site(fr, node), held=list(st.held), depth=fr.depth))
     if name == "add":
         t = engine.to_val(st, args[0])
         _escape_into(engine, st, o, t)
